@@ -44,7 +44,12 @@ func (modelFS) Link(o, n string) error                            { return vfs.L
 func (modelFS) Symlink(o, n string) error                         { return vfs.Symlink(o, n) }
 func (modelFS) CreateEmpty(p string) error                        { return vfs.CreateEmpty(p) }
 
-var dirs = []string{"d0", "d1"}
+// configured directories: d0 exists at the start, d1 is created / removed by the histories, d2
+// never exists (a configured directory that stays missing next to one that appears late)
+var dirs = []string{"d0", "d1", "d2"}
+
+// opDirs: the directories the operations of the alphabet work in
+var opDirs = []string{"d0", "d1"}
 var present = []string{"d0"}
 
 type Case struct {
@@ -68,7 +73,7 @@ func setupTree(root string) {
 
 // enumerate valid histories up to depth (every op applicable when it is performed)
 func histories(depth int) [][]fsops.Op {
-	alpha := fsops.Alphabet(dirs, []string{"d1", "d0"})
+	alpha := fsops.Alphabet(opDirs, []string{"d1", "d0"})
 	var out [][]fsops.Op
 	root := filepath.Join(scratch, "enum")
 	var rec func(cur []fsops.Op)
@@ -154,11 +159,12 @@ func same(a, b dirmodel.Observation, dirSet map[string]bool) (bool, string, stri
 // between: the cache is also queried (all listings) after every operation of the history, at
 // quiescence: whatever a query leaves behind must not survive the next change.
 func scenario(h []fsops.Op, eager bool, preempt int, racing, between bool) *explore.Scenario {
-	sc := &explore.Scenario{Name: fmt.Sprint(h), Eager: eager, Bounds: explore.Bounds{Preemptions: preempt}, MaxSteps: 50000}
+	sc := &explore.Scenario{Name: fmt.Sprint(h), Eager: eager, Bounds: explore.Bounds{Preemptions: preempt, Faults: 1}, MaxSteps: 50000}
 	sc.New = func() *explore.Instance {
 		root := filepath.Join(scratch, "x")
 		setupTree(root)
-		vfs.Reset(root)
+		vw := vfs.Reset(root)
+		vw.OverflowReports = true // one environment answer more: an overflow report of an earlier burst (costs a fault deviation)
 		paths, dirSet := configured(root)
 		var obs1, obs2 dirmodel.Observation
 		var getOnly, getWant map[string]string
@@ -629,8 +635,15 @@ func main() {
 				Converged []bool   `json:"converged"`
 				Detail    []string `json:"detail"`
 			}
-			if err := realHelper("replay", map[string]any{"dirs": dirs, "present": present, "histories": [][]fsops.Op{f.h}, "deadline_ms": 3000, "probe": true, "get_only": strings.Contains(f.v.Sig, "GetDevice-only"), "pace_ms": map[bool]int{true: 30, false: 0}[f.eager]}, &ro); err != nil {
-				die(2, "INFRA: real replay failed:", err)
+			// the unmodified build iterates over its maps in random order (the explorer's build in sorted
+			// order): the history is replayed up to 8 times, one run that does not converge confirms
+			for attempt := 0; attempt < 8; attempt++ {
+				if err := realHelper("replay", map[string]any{"dirs": dirs, "present": present, "histories": [][]fsops.Op{f.h}, "deadline_ms": 3000, "probe": true, "get_only": strings.Contains(f.v.Sig, "GetDevice-only"), "pace_ms": map[bool]int{true: 30, false: 0}[f.eager]}, &ro); err != nil {
+					die(2, "INFRA: real replay failed:", err)
+				}
+				if !ro.Converged[0] {
+					break
+				}
 			}
 			if ro.Converged[0] {
 				unconfirmed++
@@ -680,7 +693,7 @@ func main() {
 	r.Rule = fmt.Sprintf("histories = every applicable sequence of 1..%d operations over %d operations (write in place, temp+rename, move in, rename away, rename to a non-Spec name, unlink, hard link, symlink, empty create on d0/d1 with valid/invalid contents; mkdir / rm -r of the initially missing d1): %d histories; "+
 		"for each, every pacing of {history thread, fsnotify reader, cache watcher goroutine} with <=%d preemptions under an eager and a lazy default order; evaluations = complete executions, states/transitions = choice points. "+
 		"Oracle: after quiescence the second round of queries (devices, definitions, files in error) equals a fresh manual cache on the final tree. traces_validated_against_impl = histories whose model event stream equals the real fsnotify's (barrier after every operation) plus passing histories replayed on the unmodified build. "+
-		"non-trivial = every execution", depth, len(fsops.Alphabet(dirs, []string{"d1", "d0"})), len(idx), preempt)
+		"non-trivial = every execution", depth, len(fsops.Alphabet(opDirs, []string{"d1", "d0"})), len(idx), preempt)
 	r.Assumptions = []string{"inotify queue overflow and renaming a Spec directory itself are out of bounds", "directory-level monitoring errors are not compared",
 		"a violation that appears under a default schedule must be confirmed by a 3 s real replay on the unmodified build, otherwise the run is an infrastructure error"}
 	os.RemoveAll(scratch)
